@@ -331,19 +331,31 @@ PROPS = {
         technique="Lean 4 theorem over a regenerated global-state table + race-detector differential run",
     ),
     "C20": dict(
-        modules=["SpatialId.Props.C20"],
-        families=[("sets", 30000, 200000), ("ashift", 20000, 200000), ("combLattice", 1, 1)],
-        trusted_base=COMMON_TB,
+        modules=["SpatialId.Props.C20", "SpatialId.Props.C20Vec"],
+        families=[("sets", 30000, 200000), ("ashift", 20000, 200000), ("combLattice", 1, 1), ("vec", 30000, 300000),
+                  ("vecnum", 20000, 200000)],
+        trusted_base=COMMON_TB + F64_TB,
         assumptions=["|index * 2^shift| < 2^62 (no int64 overflow), |shift| < 63"],
         claim="Theorems (Props/C20.lean): union/intersection/difference/unique/include are the set operations on the elements "
               "(membership iff, Nodup where documented, order of the filtered slice kept); Max/Min return an element bounding "
               "all others and reject the empty slice; CalculateArithmeticShift i s = floor(i * 2^s) over Q for either sign of "
               "both arguments; Combinations visits exactly the k-sublists of 0..n-1 once each in lexicographic order for the "
               "whole table 0 <= k <= n <= 12 (decide +kernel; chooseK proved sound and complete for sublists in general). "
-              "Vector/matrix/quaternion identities: see level_note.",
-        note="Lean kernel + propext/Classical.choice/Quot.sound; model tied by exact comparison. The 3-D vector, line, matrix "
-             "and quaternion helpers are binary64 code: their identities hold only up to rounding and are covered in a later "
-             "round (F64 model); they are not yet claimed by this check.",
+              "Props/C20Vec.lean, about the scalar-generic model of common/spatial: over every commutative ring a line's parameter "
+              "0/1 gives its start/end point (also Start/End), the matrix product is associative, agrees with matrix-vector "
+              "application and has the unit matrix as neutral element, dot/cross satisfy commutativity, perpendicularity, "
+              "Lagrange and the triple-product identity; over R the quaternion RotateBetweenVector builds from two non-zero, "
+              "non-opposite vectors is a unit quaternion whose rotation q v q* carries the first direction onto the second "
+              "(rotateBetween_real), and in the opposite branch the half-turn about the normalised s x k is a unit quaternion "
+              "carrying s onto -s, an axis always being found (rotateOpposite_real, fallback_axis). The binary64 instance of "
+              "the same definitions equals the Go code bit for bit (Add, Sub, Scale, Dot, Cross, L1Norm, Translate, "
+              "NewVectorFromPoints, ToPoint, Start, End, Mul, MulVec); the identities are checked on the implementation's "
+              "own answers up to stated rounding bounds (vlineid, vmat), and Norm/Unit/Cos/DistancePoint/RotateBetweenVector "
+              "numerically (vnum, vquat: |q|^2 = 1 and q s q* = e within 1e-12 + 4e-15/(1+cos)).",
+        note="Lean kernel + propext/Classical.choice/Quot.sound; model tied by exact comparison. The ring/real identities are "
+             "theorems; in binary64 they hold only up to rounding, which is validated numerically, not proved. Vectors whose "
+             "cosine is within 1e-10 of -1 are treated by the library as opposite: the result then carries s onto -s, up to "
+             "1.5e-5 away from e (reported as in-band). sqrt/hypot (Norm, Unit, Cos, quaternion) are libm: no bit-exact model.",
         technique="Lean 4 theorems over an executable model + differential correspondence with the Go code",
     ),
 }
